@@ -8,6 +8,7 @@ CONSTANTS
   Latchings = {TRUE, FALSE}
   Compats = {"Standard", "LegacySip"}
   Offerers = {"A", "B"}
+  Scheds = {"plain", "slowSetRemote"}
   Deviations = {}
   Props = {"EXT", "C10.Lattice", "C10.Signaling", "C10.Roles", "C10.Keys", "C10.Connected", "C10.DcDelivery", "C10.RtpDelivery", "C10.RtpIntact"}
 CONSTRAINT Furthest
